@@ -36,6 +36,7 @@ const (
 	dtInt
 	dtNil
 	dtList
+	dtFunc
 )
 
 type dtVal struct {
@@ -45,6 +46,7 @@ type dtVal struct {
 	i   int64
 	l   []string // labels of the elements of a list
 	sym string   // symbolic text (for unknown values: what they were computed from)
+	lit *ast.FuncLit
 }
 
 func (v dtVal) label() string {
@@ -59,6 +61,8 @@ func (v dtVal) label() string {
 		return "nil"
 	case dtList:
 		return "[" + strings.Join(v.l, " ") + "]"
+	case dtFunc:
+		return "func"
 	}
 	return "?" + v.sym
 }
@@ -105,7 +109,7 @@ type DTable struct {
 	// Call: a model of a call (the arguments are evaluated); ok=false makes the result unknown.
 	Call func(r *dtRun, call *ast.CallExpr, f *types.Func, args []dtVal) (dtVal, bool)
 	// AtomName: a stable name for an atom; "" uses the symbolic text with an occurrence number.
-	AtomName  func(e ast.Expr, sym string) string
+	AtomName func(e ast.Expr, sym string) string
 	// Inline: a function whose body is evaluated in place when it is called (a helper extracted from the
 	// analysed function is still part of it); nil inlines nothing.
 	Inline    func(f *types.Func) bool
@@ -422,6 +426,8 @@ func (r *dtRun) eval1(e ast.Expr) dtVal {
 		}
 	}
 	switch x := e.(type) {
+	case *ast.FuncLit:
+		return dtVal{k: dtFunc, lit: x}
 	case *ast.Ident:
 		if v, ok := r.store[info.ObjectOf(x)]; ok {
 			return v
@@ -565,6 +571,58 @@ func (r *dtRun) eval1(e ast.Expr) dtVal {
 		var args []dtVal
 		for _, a := range x.Args {
 			args = append(args, r.eval(a))
+		}
+		// a local closure (wanted := func(d string) bool {…}): its body is part of the function
+		if id, ok := ast.Unparen(x.Fun).(*ast.Ident); ok && r.depth < 3 {
+			if fv, ok := r.store[info.ObjectOf(id)]; ok && fv.k == dtFunc && fv.lit != nil && !x.Ellipsis.IsValid() {
+				k := 0
+				bound := true
+				for _, fld := range fv.lit.Type.Params.List {
+					for _, nm := range fld.Names {
+						if k < len(args) {
+							r.store[info.ObjectOf(nm)] = args[k]
+						} else {
+							bound = false
+						}
+						k++
+					}
+					if len(fld.Names) == 0 {
+						k++
+					}
+				}
+				if bound && k == len(args) {
+					if fv.lit.Type.Results != nil {
+						for _, fld := range fv.lit.Type.Results.List {
+							for _, nm := range fld.Names {
+								if o := info.ObjectOf(nm); o != nil {
+									r.store[o] = zeroOf(o.Type())
+								}
+							}
+						}
+					}
+					saveRet, savePos := r.ret, r.retPos
+					r.depth++
+					ctl := r.block(fv.lit.Body.List)
+					r.depth--
+					res := r.ret
+					if ctl != ctlReturn {
+						res = nil
+					}
+					if ctl == ctlReturn && len(res) == 0 && fv.lit.Type.Results != nil {
+						for _, fld := range fv.lit.Type.Results.List {
+							for _, nm := range fld.Names {
+								res = append(res, r.store[info.ObjectOf(nm)])
+							}
+						}
+					}
+					r.ret, r.retPos = saveRet, savePos
+					r.tuple = res
+					if len(res) > 0 {
+						return res[0]
+					}
+					return dtVal{sym: r.sym(x)}
+				}
+			}
 		}
 		f := callee(info, x)
 		what := r.sym(x)
